@@ -1045,3 +1045,9 @@ V("C07", "twin-angle-clamp-min-max", AKH, "            if (cosine < -1.0f) {\n  
 V("C07", "twin-dihedral-locals-renamed", DHKH, "            fvec4 c1 = cross(v2, v3);\n            fvec4 c2 = cross(v1, v2);\n            float p1 = dot3(v1, c1)*distances[3*j+1];\n            float p2 = dot3(c1, c2);\n            out[n_quartets*j + i] = atan2f(p1, p2);", "            fvec4 n23 = cross(v2, v3);\n            fvec4 n12 = cross(v1, v2);\n            float yv = distances[3*j+1]*dot3(n23, v1);\n            float xv = dot3(n12, n23);\n            out[n_quartets*j + i] = atan2f(yv, xv);", None)
 V("C07", "dihedral-cross-operands-swapped", DHKH, "            fvec4 c2 = cross(v1, v2);", "            fvec4 c2 = cross(v2, v1);", "C07-R3")
 V("C07", "twin-reference-dihedral-norm", DHPY, "    p1 *= (b2 * b2).sum(-1) ** 0.5", "    p1 = p1 * np.sqrt((b2 * b2).sum(-1))", None)
+V("C14", "ks-energy-swapped-distances", GEOC, "    fvec4 d2_honchcno(dot3(r_ho, r_ho), dot3(r_nc, r_nc), dot3(r_hc, r_hc), dot3(r_no, r_no));", "    fvec4 d2_honchcno(dot3(r_ho, r_ho), dot3(r_hc, r_hc), dot3(r_nc, r_nc), dot3(r_no, r_no));", "C14-R3")
+V("C14", "ks-coupling-signs-permuted", GEOC, "    fvec4 coupling(-2.7888f, -2.7888f, 2.7888f, 2.7888f); // 332 (kcal*A/mol) * 0.42 * 0.2 * (1nm / 10 A)", "    fvec4 coupling(-2.7888f, 2.7888f, -2.7888f, 2.7888f); // 332 (kcal*A/mol) * 0.42 * 0.2 * (1nm / 10 A)", "C14-R3")
+V("C14", "twin-ks-terms-permuted-consistently", GEOC, '    fvec4 coupling(-2.7888f, -2.7888f, 2.7888f, 2.7888f); // 332 (kcal*A/mol) * 0.42 * 0.2 * (1nm / 10 A)\n    fvec4 r_n(xyz[3*nco_indices[3*donor]], xyz[3*nco_indices[3*donor]+1], xyz[3*nco_indices[3*donor]+2], 0);\n    fvec4 r_h(hcoords[4*donor], hcoords[4*donor+1], hcoords[4*donor+2], 0);\n    fvec4 r_c(xyz[3*nco_indices[3*acceptor+1]], xyz[3*nco_indices[3*acceptor+1]+1], xyz[3*nco_indices[3*acceptor+1]+2], 0);\n    fvec4 r_o(xyz[3*nco_indices[3*acceptor+2]], xyz[3*nco_indices[3*acceptor+2]+1], xyz[3*nco_indices[3*acceptor+2]+2], 0);\n    fvec4 r_ho = r_h-r_o;\n    fvec4 r_hc = r_h-r_c;\n    fvec4 r_nc = r_n-r_c;\n    fvec4 r_no = r_n-r_o;\n\n    // Compute all four dot products (each of the squared distances) and pack them into a single fvec4.\n\n    fvec4 d2_honchcno(dot3(r_ho, r_ho), dot3(r_nc, r_nc), dot3(r_hc, r_hc), dot3(r_no, r_no));\n', '    fvec4 coupling(-2.7888f, 2.7888f, -2.7888f, 2.7888f); // 332 (kcal*A/mol) * 0.42 * 0.2 * (1nm / 10 A)\n    fvec4 r_n(xyz[3*nco_indices[3*donor]], xyz[3*nco_indices[3*donor]+1], xyz[3*nco_indices[3*donor]+2], 0);\n    fvec4 r_h(hcoords[4*donor], hcoords[4*donor+1], hcoords[4*donor+2], 0);\n    fvec4 r_c(xyz[3*nco_indices[3*acceptor+1]], xyz[3*nco_indices[3*acceptor+1]+1], xyz[3*nco_indices[3*acceptor+1]+2], 0);\n    fvec4 r_o(xyz[3*nco_indices[3*acceptor+2]], xyz[3*nco_indices[3*acceptor+2]+1], xyz[3*nco_indices[3*acceptor+2]+2], 0);\n    fvec4 r_ho = r_h-r_o;\n    fvec4 r_hc = r_h-r_c;\n    fvec4 r_nc = r_n-r_c;\n    fvec4 r_no = r_n-r_o;\n\n    // Compute all four dot products (each of the squared distances) and pack them into a single fvec4.\n\n    fvec4 d2_honchcno(dot3(r_ho, r_ho), dot3(r_hc, r_hc), dot3(r_nc, r_nc), dot3(r_no, r_no));\n', None)
+V("C14", "hydrogen-along-C-to-O", GEOC, "                fvec4 r_co = pc-po;", "                fvec4 r_co = po-pc;", "C14-R3")
+V("C14", "hydrogen-not-normalised", GEOC, "                fvec4 norm_r_co = r_co/sqrt(dot3(r_co, r_co));", "                fvec4 norm_r_co = r_co;", "C14-R3")
+V("C14", "twin-hydrogen-locals-renamed", GEOC, "                fvec4 r_co = pc-po;\n                fvec4 norm_r_co = r_co/sqrt(dot3(r_co, r_co));\n                fvec4 r_h = r_n+norm_r_co*0.1f;\n                r_h.store(hcoords);", "                fvec4 oc = pc-po;\n                fvec4 unit = oc/sqrt(dot3(oc, oc));\n                fvec4 hpos = unit*0.1f+r_n;\n                hpos.store(hcoords);", None)
